@@ -332,3 +332,64 @@ theorem halfOpen_rejects_upper_release {V H w : Version} (hH : H.isFinal = true)
 
 end VRange
 end Poetry
+
+/-! ## the upper end of `~=V` -/
+namespace Poetry
+open Version
+
+/-- the upper end `parse_single_constraint` computes for `~=V` -/
+def compatHigh (v : Version) : Version :=
+  if v.precision == 2 then v.stable.nextMajor
+  else if v.precision ≤ 3 then v.stable.nextMinor
+  else Version.mk' v.epoch (Version.bumpSecondToLast v.release) none none none none
+
+theorem bump_eq : ∀ (r : List Nat), 2 ≤ r.length → bumpSecondToLast r = incrLast r.dropLast ++ [0]
+  | [], h => by simp at h
+  | [x], h => by simp at h
+  | [x, y], _ => by simp [bumpSecondToLast, incrLast]
+  | x :: y :: z :: rest, _ => by
+    have ih := bump_eq (y :: z :: rest) (by simp)
+    show x :: bumpSecondToLast (y :: z :: rest) = _
+    rw [ih]
+    simp [List.dropLast, incrLast]
+
+theorem incrLast_dropLast_gt : ∀ (r : List Nat), 2 ≤ r.length →
+    compare (stripZeros r) (stripZeros (incrLast r.dropLast)) = .lt
+  | [], h => by simp at h
+  | [x], h => by simp at h
+  | [x, y], _ => by
+    show compare (stripZeros (x :: [y])) (stripZeros ((x + 1) :: [])) = .lt
+    exact sz_cmp_lt_head (by omega) _ _
+  | x :: y :: z :: rest, _ => by
+    have ih := incrLast_dropLast_gt (y :: z :: rest) (by simp)
+    have e : incrLast (x :: y :: z :: rest).dropLast = x :: incrLast (y :: z :: rest).dropLast := by
+      simp [List.dropLast, incrLast]
+    rw [e, sz_cmp_cons]; exact ih
+
+/-- the upper end of `~=V`, uniformly: drop the last release component, increment the new last one, pad
+with a zero -/
+theorem compatHigh_release (v : Version) (hp : 2 ≤ v.precision) :
+    (compatHigh v).release = incrLast v.release.dropLast ++ [0] ∧ (compatHigh v).epoch = v.epoch ∧
+    compatHigh v = mk' (compatHigh v).epoch (compatHigh v).release none none none none := by
+  unfold precision at hp
+  rcases hr : v.release with _ | ⟨a, _ | ⟨b, _ | ⟨c, _ | ⟨d, rest⟩⟩⟩⟩
+  · rw [hr] at hp; simp at hp
+  · rw [hr] at hp; simp at hp
+  · have h2 : (v.precision == 2) = true := by simp [precision, hr]
+    simp only [compatHigh, h2, if_true]
+    refine ⟨?_, by simp [nextMajor, mk', stable_epoch], rfl⟩
+    rw [stable_nextMajor_release, hr]; simp [relNextMajor, relMajor, zeros, incrLast]
+  · have h2 : (v.precision == 2) = false := by simp [precision, hr]
+    have h3 : v.precision ≤ 3 := by simp [precision, hr]
+    simp only [compatHigh, h2, h3, if_true, Bool.false_eq_true, if_false]
+    refine ⟨?_, by simp [nextMinor, mk', stable_epoch], rfl⟩
+    rw [stable_nextMinor_release, hr]; simp [relNextMinor, zeros, incrLast]
+  · have h2 : (v.precision == 2) = false := by simp [precision, hr]
+    have h3 : ¬ v.precision ≤ 3 := by simp [precision, hr]
+    simp only [compatHigh, h2, h3, Bool.false_eq_true, if_false]
+    refine ⟨?_, rfl, rfl⟩
+    simp only [mk']
+    rw [hr]; exact bump_eq _ (by simp)
+
+
+end Poetry
